@@ -43,6 +43,11 @@ class Fmt:
             return str(t[1])
         if k == "b":
             return "[" + self.bdd(t[1], d) + "]"
+        if k == "B":
+            alg = getattr(self, "alg", None)
+            if alg is None:
+                return "[B%d]" % t[1]
+            return "[" + alg.bdd.to_str(t[1], lambda a: self.f(a, d + 1)) + "]"
         if k == "field":
             if len(t) == 3:
                 return "%s.%s" % (F(t[1]), self.field_name(t[1], t[2]))
